@@ -80,6 +80,8 @@ type Case struct {
 	MaxSize   int   `json:"max_size"`
 	// Race != nil: not a history but a run of the concurrent engine (race_test.go) with these parameters
 	Race *RaceParams `json:"race,omitempty"`
+	// Direct != nil: a run of a direct-oracle engine (scale_test.go: scale | far) with these parameters
+	Direct *DirectParams `json:"direct,omitempty"`
 	Ops       []Op  `json:"ops"`
 }
 
@@ -1479,6 +1481,8 @@ func TestCheck(t *testing.T) {
 		}
 		if c.Race != nil {
 			judgeRace(t, run, *c.Race)
+		} else if c.Direct != nil {
+			directRun(t, run, *c.Direct)
 		} else {
 			term, viol, tags := runCase(t, &c, nil, 0, "ext0")
 			finish(&c, term, viol, tags)
@@ -1523,6 +1527,11 @@ func TestCheck(t *testing.T) {
 	if env.Replay == "" {
 		// concurrent engine: a history-rewriting Set racing an in-place Set / a peer Merge of the same id, on real cores
 		judgeRace(t, run, racePlan(env))
+		// direct-oracle engines: large stores with a mass expiry; far-future / pre-1970 instants through the API
+		for _, p := range scalePlan(env) {
+			directRun(t, run, p)
+		}
+		directRun(t, run, DirectParams{Kind: "far", Note: directNote})
 	}
 	if err := run.Finish("adaptive random histories of Set/Expire/GC/Query/Reload and POST/DELETE/GET handler calls on 1-4 silences under synctest virtual time, instants at start/end/end+retention -1/0/+1 ns; after every op the st/mi/vi/version bookkeeping and the full content are read; non-trivial = at least two Set/POST and one Expire/DELETE/GC; distinct by full history text"); err != nil {
 		t.Fatal(err)
